@@ -68,12 +68,15 @@ func A() {
 //«c6»
 type S struct {
 	a int //«c7»
-	b int
+	//«c8»
+	b int // S-B
 } // S-END
 
 func B() {
 	z := 3
-	_ = z
+	//«c9»
+	var q int // B-VAR
+	_, _ = z, q
 } // B-END
 `
 
@@ -94,8 +97,8 @@ func ZZC07SpellingsStmt() { c07Scopes(2) }
 
 func c07Scopes(spellAt int) {
 	holes := []nd.Hole{}
-	sp := make([]string, 8)
-	names := []string{"c0", "c1", "c2", "c3", "c4", "c5", "c6", "c7"}
+	sp := make([]string, 10)
+	names := []string{"c0", "c1", "c2", "c3", "c4", "c5", "c6", "c7", "c8", "c9"}
 	active := 0
 	for i, n := range names {
 		switch {
@@ -110,7 +113,7 @@ func c07Scopes(spellAt int) {
 		holes = append(holes, nd.Hole{Name: n, Value: sp[i]})
 		active += nd.IteInt(nd.HasPrefix(sp[i], " @ignore "), 1, 0)
 	}
-	nd.Assume(active <= 2) // stated bound: at most two markers at a time (all 8 placements, all pairs)
+	nd.Assume(active <= 2) // stated bound: at most two markers at a time (all 10 placements, all pairs)
 	files := []nd.File{{Pkg: "zzmod/d", Name: "d.go", Src: c07Src}}
 	prog := nd.LoadProgram(files, holes)
 	var raw []analysis.Diagnostic
@@ -130,6 +133,8 @@ func c07Scopes(spellAt int) {
 		{sp[5], off("//«c5»"), off("//«c5»") + width},                // last in a body: nothing follows
 		{sp[6], off("//«c6»"), off("} // S-END") + 1},                // alone before a type declaration
 		{sp[7], lineStart("//«c7»"), off("//«c7»") + width},          // trailing a struct field
+		{sp[8], off("//«c8»"), off("b int // S-B") + len("b int")},    // alone before a struct field: the field
+		{sp[9], off("//«c9»"), off("var q int // B-VAR") + len("var q int")}, // alone before a local declaration (the comment is its Doc)
 	}
 	code := nd.Enum("q_code", "IMM01", "IMM02", "CTOR02", "CTOR01", "TONL01", "PKGO03", "IMPL02")
 	qoff := nd.Int("q_offset")
